@@ -56,7 +56,7 @@ CHAN_NOTE = ("Channel.tla is checked exhaustively by TLC for 2 senders x 2 envel
              "closure is observed with 7 s bounds because TCP receivers poll every 5 s; trusted: TLC, CommunityModules Json, Go runtime, crypto/tls, gorilla/websocket.")
 CLAIMED["C04"] = dict(engine="channel", tech="TLA+ model Channel.tla (senders, send mutex, wire, receiver, bounded streams, consumer) checked by TLC; perturbed free runs of real sessions over the five transports with concurrent senders in both directions, mixed kinds, 60 KiB payloads, buffers 0/1/8 and slow handlers; every recorded history validated by the TLC monitor ChanObs (C04_NoFabrication, C04_AtMostOnce, C04_PerSenderOrder, C04_AllDelivered, C04_Intact)",
    text="Every interleaving of the model instance is checked by TLC; on the real code each run's complete send/deliver history is checked by TLC against the same operators.", ref="DESIGN.md 3.2, 5 (C04)", note=CHAN_NOTE)
-CLAIMED["C13"] = dict(engine="channel", tech="TLA+ model Channel.tla (FinishSession steps racing with senders and the receiver; invariant WriterExclusion) checked by TLC; perturbed free runs over the five transports ending the session by client finish / server finish / server fail / Server.Close, idle or during traffic; TLC monitor ChanObs (C13_CleanEnd, C13_NoLeak, C13_NoCrash)",
+CLAIMED["C13"] = dict(engine="channel", tech="TLA+ model Channel.tla (FinishSession steps racing with senders and the receiver; invariant WriterExclusion) checked by TLC; perturbed free runs over the five transports ending the session by client finish / server finish / server fail / Server.Close, idle or during traffic; TLC monitor ChanObs (C13_CleanEnd, C13_PeerObserves, C13_InitiatorObserves, C13_NoLeak, C13_NoCrash)",
    text="The model is checked for every moment of termination relative to traffic in flight; real sessions are ended at seeded moments and what both parties observe (terminal state, receiver-done, streams, consumers, connection, goroutine census, process survival) is checked by TLC.", ref="DESIGN.md 3.2, 5 (C13)", note=CHAN_NOTE)
 CLAIMED["C17"] = dict(engine="channel", tech="TLA+ model Iso.tla (per-connection channels, session context built from the channel that owns the connection, sender = that channel, fresh session ids, arbitrary registered nodes) checked by TLC; free runs of 3-12 concurrent real sessions on one Server listening on TCP, WebSocket and in-process at once, registration assigning equal addresses to several sessions; TLC monitor ChanObs (C17_Isolated)",
    text="All interleavings of three sessions' traffic are checked on the model; on the real Server every handler invocation's context values are compared with what that client's session announced, and every reply sent through the handler's sender is followed to the client that receives it.", ref="DESIGN.md 3.5, 5 (C17)", note=CHAN_NOTE)
